@@ -161,7 +161,16 @@ func rrGen(r *hx.Rand, i int) interface{} {
 	default:
 		in.Start = r.U64() >> 2
 	}
+	if weighted && r.Chance(1, 4) {
+		// weighted rings have 9997…10000 slots: start a few slots before the end of the ring (some cycles in), so that
+		// a handful of picks wraps around it
+		l := uint64(9997 + r.Intn(4))
+		in.Start = l*uint64(1+r.Intn(3)) - uint64(r.Intn(20))
+	}
 	in.Picks = r.Intn(40)
+	if in.Start > 9000 && in.Start < 31000 {
+		in.Picks += 25
+	}
 	if r.Chance(1, 5) {
 		in.Picks = 100 + r.Intn(400)
 	}
